@@ -45,7 +45,7 @@ REGISTRY.update({
     "C07": {
         "level": "Metamorphic laws (zero on reorderings, symmetry, non-negativity, triangle inequality, diagonal-point / translation / scaling invariance, "
                  "closed forms against the empty diagram, d_B <= d_W) on diagrams of up to 60 (quick) / 200 (thorough) points, plus a differential value "
-                 "oracle (independent bottleneck reference, independent Wasserstein reference) at sizes brute force cannot reach. Exploration: the laws quantify over all "
+                 "oracle (independent bottleneck reference, independent Wasserstein reference) at sizes brute force cannot reach, incl. a deterministic non-Hypothesis slice of 475..700-point pairs and chain-structured diagrams of 300..520 (thorough: 800) points each whose feasibility graph is a single path. Exploration: the laws quantify over all "
                  "triples; no finite slice is complete.",
         "technique": "property-based testing (Hypothesis): metamorphic relations + differential reference at size",
         "note": _NOTE + "Sizes bounded by the cost of persim's pure-Python bottleneck.",
@@ -63,10 +63,10 @@ REGISTRY.update({
     },
     "C15": {
         "level": "Generated pairs/triples with coordinates of either sign are compared with a float64 transcription of the averaged 1-D transport cost "
-                 "(tolerance set by the implementation's float32 directions), plus symmetry, zero on reorderings, triangle inequality, diagonal points, "
+                 "(tolerance 1e-11 of the coordinate sum since the single-precision direction vectors of the pinned release were repaired), plus symmetry, zero on reorderings, triangle inequality, diagonal points, "
                  "diagonal translation into negative coordinates, scaling and SW <= 2 W1 against an independent assignment reference.",
         "technique": "property-based testing (Hypothesis): formula oracle + metamorphic relations + inequality against an independent assignment reference",
-        "note": _NOTE + "Tolerance 5e-6 * sum|coordinates| because directions are float32 in the implementation.",
+        "note": _NOTE + "Tolerance 1e-11 * sum|coordinates| (5e-6 before the float32 direction vectors were repaired, DESIGN 9.3).",
     },
 })
 
@@ -85,7 +85,7 @@ REGISTRY.update({
     "C04": {
         "level": "Every pixel of images produced through the public API (all kernel classes incl. all four correlation regimes, all weight classes, points "
                  "inside / on borders / on pixel corners / outside, both input forms) is compared with an independently integrated kernel mass of the "
-                 "pixel square located from the public ranges; a second clause pins the (birth, persistence) axis convention on non-square grids.",
+                 "pixel square located from the public ranges; a second clause pins the (birth, persistence) axis convention on non-square grids; a third feeds integer-valued diagrams as uint8 / int16 / int64 arrays and int lists, integer weight exponents and the scalar variance as Python / NumPy scalar types.",
         "technique": "property-based testing (Hypothesis) against an independent numerical-integration reference (differential)",
         "note": _NOTE + "Resolution <= 8x8 and |r| <= 0.99 are cost bounds of the reference quadrature; grids are exact multiples so that C12's concern stays separate.",
     },
